@@ -4,11 +4,13 @@ import (
 	"fmt"
 	"runtime"
 	"strconv"
+	"sync/atomic"
 	"time"
 
 	"github.com/bluenviron/gomavlib/v3"
 	"github.com/bluenviron/gomavlib/v3/pkg/dialect"
 	"github.com/bluenviron/gomavlib/v3/pkg/dialects/minimal"
+	"github.com/bluenviron/gomavlib/v3/pkg/frame"
 	"github.com/bluenviron/gomavlib/v3/pkg/message"
 
 	"verifharness/hx"
@@ -64,11 +66,29 @@ func genC13(o *hx.Out, tier string) {
 		pipes[stalled].BlockWrites()
 		n := 100 + r.Intn(150)
 		t0 := time.Now()
-		for i := 0; i < n; i++ {
-			node.WriteMessageAll(serialMsg(1000 + i)) //nolint:errcheck
-			if i%32 == 31 {
-				time.Sleep(200 * time.Microsecond) // let the healthy writers drain: only the stalled one may overflow
+		var submitted int32
+		subDone := make(chan struct{})
+		go func() {
+			defer close(subDone)
+			for i := 0; i < n; i++ {
+				node.WriteMessageAll(serialMsg(1000 + i)) //nolint:errcheck
+				atomic.AddInt32(&submitted, 1)
+				if i%32 == 31 {
+					time.Sleep(200 * time.Microsecond) // let the healthy writers drain: only the stalled one may overflow
+				}
 			}
+		}()
+		select {
+		case <-subDone:
+		case <-time.After(scn.Timeout):
+			// a stalled channel must not block those who submit
+			scn.NoteExpired()
+			o.Add("stall: submitters never block", fmt.Sprintf("SUBMIT-BLOCKED after %d of %d writes", atomic.LoadInt32(&submitted), n),
+				"fanchk", "eq", joinInts(seqInts(1000, 1000+n)), joinInts(seqInts(1000, 1000+n)))
+			pipes[stalled].UnblockWrites()
+			<-subDone
+			scn.CloseWithin(node, 10*time.Second)
+			continue
 		}
 		submitTime := time.Since(t0)
 		for i := range chs {
@@ -146,10 +166,15 @@ func genC13(o *hx.Out, tier string) {
 		}
 		var expA, expB []int
 		wcallA := 0
+		subs := map[int]submission{markerSerial: {}}
 		for i := 0; i < n; i++ {
 			bad := sc%2 == 1 && r.Intn(5) == 0
 			if bad {
-				if v1 {
+				if r.Intn(2) == 0 {
+					// forwarded frame the link cannot carry: a v1 frame with an id above 255
+					node.WriteFrameAll(&frame.V1Frame{SequenceNumber: byte(i), SystemID: 77, ComponentID: 1, //nolint:errcheck
+						Message: &message.MessageRaw{ID: 300, Payload: []byte{byte(i)}}})
+				} else if v1 {
 					// id above 255 on a v1 link: encodable by the node, refused by the frame
 					node.WriteMessageAll(&minimal.MessageProtocolVersion{Version: uint16(i)}) //nolint:errcheck
 				} else {
@@ -158,7 +183,19 @@ func genC13(o *hx.Out, tier string) {
 				}
 				continue
 			}
-			node.WriteMessageAll(serialMsg(1000 + i)) //nolint:errcheck
+			if r.Intn(2) == 0 {
+				// a forwarded frame (keeps its own header)
+				sub := submission{serial: 1000 + i, kind: 3, isFrame: true, hdr: [3]byte{byte(r.Intn(256)), byte(100 + r.Intn(100)), byte(r.Intn(256))}}
+				subs[sub.serial] = sub
+				mrw := drw.GetMessage(0)
+				raw := mrw.Write(serialMsg(sub.serial), true)
+				f := &frame.V2Frame{SequenceNumber: sub.hdr[0], SystemID: sub.hdr[1], ComponentID: sub.hdr[2], Message: raw}
+				f.Checksum = f.GenerateChecksum(mrw.CRCExtra())
+				node.WriteFrameAll(f) //nolint:errcheck
+			} else {
+				subs[1000+i] = submission{serial: 1000 + i}
+				node.WriteMessageAll(serialMsg(1000 + i)) //nolint:errcheck
+			}
 			wcallA++
 			if !failAt[wcallA] {
 				expA = append(expA, 1000+i)
@@ -177,7 +214,7 @@ func genC13(o *hx.Out, tier string) {
 		}
 		for c, exp := range [][]int{expA, expB} {
 			got := waitMarker(pipes[c], drw)
-			serials, verdict := checkWire(pipes[c].Writes(), drw, nil, 10)
+			serials, verdict := checkWire(pipes[c].Writes(), drw, subs, 10)
 			if !got {
 				verdict = "MARKER-TIMEOUT (channel open but discarding output)"
 			}
